@@ -18,7 +18,7 @@ var firstReads = []string{"SupplementTipBlock", "SupplementTipTransaction", "Exp
 // runBlind runs the plan on a node nobody looks at between the steps (the harness reads
 // nothing of the store until the history is over), then asks ONE serving function first and
 // only then takes the full view; both must be what the linear twin of the final tip serves.
-func runBlind(t *chaingen.Tree, cs Case, first int) (f *storeobs.Finding, ran bool) {
+func runBlind(t *chaingen.Tree, cs Case, first int, observedTip types.BlockID) (f *storeobs.Finding, ran bool) {
 	var db chain.DB = chain.NewMemDB()
 	if cs.Cache {
 		db = chain.NewCacheDB(db)
@@ -31,6 +31,17 @@ func runBlind(t *chaingen.Tree, cs Case, first int) (f *storeobs.Finding, ran bo
 		if obs := storeobs.DoOp(nd, op); obs.Panic {
 			return &storeobs.Finding{Kind: "c02-manager-call-panics", Detail: fmt.Sprintf("unobserved run: %v panicked: %s", op, obs.ErrText)}, true
 		}
+	}
+	// looking at the store must not change what the manager does: the node nobody looked at
+	// ends on the tip the observed node of the same plan ended on
+	if got := nd.Sim.CM.Tip().ID; got != observedTip {
+		name := func(id types.BlockID) string {
+			if x, ok := t.ByID[id]; ok {
+				return fmt.Sprintf("block %d (height %d)", x.Idx, x.Height)
+			}
+			return id.String()
+		}
+		return &storeobs.Finding{Kind: "c02-unobserved-run-ends-on-another-tip", Detail: fmt.Sprintf("the same plan run on a node from whose store nothing is read between the calls ends on %s, the observed node on %s", name(got), name(observedTip))}, true
 	}
 	tw := storeobs.NewTwins(t)
 	lf, stats := storeobs.Judge(nd, tw) // laws about the diffs, and whether a revert could reorder a list
